@@ -2,6 +2,7 @@ package main
 
 import (
 	"bytes"
+	"encoding/json"
 	"fmt"
 	"math/rand"
 	"sort"
@@ -202,6 +203,26 @@ func (s *storeState) step(st Obj) J {
 			out = append(out, pidOf(p))
 		}
 		return out
+	case "badjson":
+		// the set's own encoding with one more valid entry and one null entry: cannot be decoded
+		b, err := s.sets[h].MarshalJSON()
+		if err != nil {
+			return "error: " + err.Error()
+		}
+		var doc map[string]map[string]json.RawMessage
+		if err := json.Unmarshal(b, &doc); err != nil {
+			panic(harnessError{err})
+		}
+		if doc["staticPolicies"] == nil {
+			doc["staticPolicies"] = map[string]json.RawMessage{}
+		}
+		doc["staticPolicies"]["zz extra"] = json.RawMessage(`{"effect":"forbid","principal":{"op":"All"},"action":{"op":"All"},"resource":{"op":"All"}}`)
+		doc["staticPolicies"]["zz null"] = json.RawMessage(`null`)
+		bad, _ := json.Marshal(doc)
+		if err := s.sets[h].UnmarshalJSON(bad); err != nil {
+			return "error"
+		}
+		return "ok"
 	case "jsonroundtrip":
 		h2 := must(asIntJ(st["h2"]))
 		b, err := s.sets[h].MarshalJSON()
@@ -334,8 +355,10 @@ func driveStore(seed int64, n int, params map[string]string) []Obj {
 				st = append(st, Obj{"op": "mapput", "id": id, "pol": pol})
 			case k < 16 && copyLive:
 				st = append(st, Obj{"op": "mapdelete", "id": id})
-			case k < 18:
+			case k < 17:
 				st = append(st, Obj{"op": "marshalcedar", "h": h})
+			case k < 18:
+				st = append(st, Obj{"op": "badjson", "h": h})
 			default:
 				h2 := 1 + r.Intn(2)
 				st = append(st, Obj{"op": "jsonroundtrip", "h": h, "h2": h2})
